@@ -608,6 +608,7 @@ func c19Run(c *mon.Ctx, unit int) {
 func c19Concurrent(c *mon.Ctx, scen int) {
 	rng := c.Rng(1900)
 	for _, kind := range c19Kinds {
+		c19SharedKeys(c, rng, kind, scen)
 		for rep := 0; rep < 4; rep++ {
 			G := []int{2, 3, 4, 8}[rng.Intn(4)]
 			R := rng.Range(1, 4)
@@ -774,6 +775,119 @@ func c19Concurrent(c *mon.Ctx, scen int) {
 	}
 }
 
+// c19SharedKeys: all goroutines work on the SAME few keys in short bursts (Set / Delete / Update /
+// Filter / Has / Len). Which value or key set survives depends on the schedule and is not
+// judged; judged are the invariants the statement gives for every state, asserted at the
+// quiescent point after each burst: no key iterated twice, Len = number of iterated keys, Has /
+// Get agree with the iteration for every key of the pool, Each / EachSafe / MarshalJSON agree
+// on the order.
+func c19SharedKeys(c *mon.Ctx, rng *mon.Rng, kind mapKind, scen int) {
+	const nkeys = 3
+	m := kind.mk(rng.Intn(3))
+	bursts := 60
+	G := []int{2, 4, 8}[rng.Intn(3)]
+	for b := 0; b < bursts; b++ {
+		// every second burst starts from a map holding all keys, so that removals of the same
+		// live key meet
+		if b%2 == 0 {
+			for k := 0; k < nkeys; k++ {
+				m.Set(k, b)
+			}
+		}
+		plans := make([][]c19Op, G)
+		for g := range plans {
+			n := rng.Range(1, 6)
+			for i := 0; i < n; i++ {
+				k := rng.Intn(nkeys)
+				if b%4 == 0 {
+					k = 0 // everybody on one key
+				}
+				switch rng.Intn(8) {
+				case 0, 1, 2:
+					plans[g] = append(plans[g], c19Op{"Delete", k, 0})
+				case 3, 4:
+					plans[g] = append(plans[g], c19Op{"Set", k, g*1000 + i})
+				case 5:
+					plans[g] = append(plans[g], c19Op{"Update", k, 0})
+				case 6:
+					plans[g] = append(plans[g], c19Op{"Filter", k, 0})
+				default:
+					plans[g] = append(plans[g], c19Op{"Has", k, 0})
+				}
+			}
+		}
+		var start, wg sync.WaitGroup
+		start.Add(1)
+		for g := 0; g < G; g++ {
+			wg.Add(1)
+			go func(plan []c19Op) {
+				defer wg.Done()
+				start.Wait()
+				for _, op := range plan {
+					switch op.Op {
+					case "Delete":
+						m.Delete(op.Key)
+					case "Set":
+						m.Set(op.Key, op.Arg)
+					case "Update":
+						m.Update(op.Key, func(v int) int { return v + 1 })
+					case "Filter":
+						m.Filter(func(k, v int) bool { return k != op.Key })
+					default:
+						m.Has(op.Key)
+						m.Len()
+					}
+				}
+			}(plans[g])
+		}
+		start.Done()
+		wg.Wait()
+		c.Count("shared-key bursts (quiescent invariants checked)", 1)
+		c.Count("concurrent operations", G*3)
+		problem := ""
+		var order []int
+		seen := map[int]bool{}
+		m.EachSafe(func(k, v int) {
+			if seen[k] {
+				problem = fmt.Sprintf("key %d iterated twice", k)
+			}
+			seen[k] = true
+			order = append(order, k)
+		})
+		var order2 []int
+		m.Each(func(k, v int) error { order2 = append(order2, k); return nil })
+		if fmt.Sprint(order) != fmt.Sprint(order2) {
+			problem = fmt.Sprintf("EachSafe iterates %v, Each %v", order, order2)
+		}
+		if m.Len() != len(order) {
+			problem = fmt.Sprintf("Len()=%d but %d keys iterated (%v)", m.Len(), len(order), order)
+		}
+		var vals []int
+		for _, k := range order {
+			v, _ := m.Get(k)
+			vals = append(vals, v)
+		}
+		for k := 0; k < nkeys; k++ {
+			_, ok := m.Get(k)
+			if m.Has(k) != seen[k] || ok != seen[k] {
+				problem = fmt.Sprintf("key %d: Has=%v Get ok=%v, iterated=%v", k, m.Has(k), ok, seen[k])
+			}
+		}
+		if js, err := m.MarshalJSON(); err != nil {
+			problem = "MarshalJSON: " + err.Error()
+		} else if want := m.expectJSON(order, vals); problem == "" && string(js) != want {
+			problem = fmt.Sprintf("MarshalJSON %s, iteration gives %s", js, want)
+		}
+		if problem != "" {
+			c.Violate("concurrent", map[string]any{"map": kind.name, "scenario": scen, "burst": b, "unit": c.Unit, "seed": c.Seed, "tier": c.Tier, "family": "shared keys"},
+				"every quiescent state satisfies the ordered-map invariants", problem, "ordered map corrupted by concurrent use of the same keys")
+			return
+		}
+	}
+	c.Eval(1)
+	c.Distinct(fmt.Sprint("shared", scen, kind.name, G))
+}
+
 func init() {
 	mon.Register(&mon.Prop{
 		ID:    "C19",
@@ -782,7 +896,7 @@ func init() {
 			"(quick 5, thorough 6), enumerated exhaustively by prefix, on ASTNodes, RuleASTNodes and (hook) Constraints; after every step Len/Has/Get/GetValue for all keys, " +
 			"Each/EachSafe order, Find and MarshalJSON bytes are compared with a slice-of-pairs reference; plus random sequences up to length 200 over 8 keys and all constructor variants. " +
 			"Non-trivial = sequence containing a Set followed by a Delete or Filter (exhaustive ones are distinct by construction, random ones are hashed). " +
-			"Concurrent: -race build, writers on disjoint keys plus shared readers, race-detector log + quiescent invariants.",
+			"Concurrent: -race build, writers on disjoint keys plus shared readers, race-detector log + quiescent invariants; bursts of goroutines working on the SAME keys with the statement's state invariants asserted at every quiescent point.",
 		Assumptions: []string{
 			"Update on an absent key is a no-op; Map/Each stop at the first callback error (the natural reading of the generated code's contract)",
 			"race freedom is judged only for the schedules the Go runtime produced in this run",
